@@ -79,7 +79,7 @@ Print Assumptions C15_activate_accepted_only_after_period.
 
 Theorem C15_unjail_only_in_window :
   forall cfg s v, snd (step cfg s (OUnjail v)) = ROk ->
-  exists r jt, lookup v (st_vals s) = Some r /\ v_status r = SJailed /\ lookup v (st_jail s) = Some jt /\ st_time s <= jt + c_unjail_max cfg.
+  exists r jt, lookup v (st_vals s) = Some r /\ v_status r = SJailed /\ lookup v (st_jail s) = Some jt /\ st_time s <= jt + c_unjail_max cfg * NS.
 Proof. exact unjail_accepted_only_in_window. Qed.
 Print Assumptions C15_unjail_only_in_window.
 
@@ -112,7 +112,7 @@ Proof. eexists. split; [vm_compute; reflexivity|]. split; [vm_compute; reflexivi
 (* settings may change between blocks (SetNetworkProperty proposals): every theorem above holds for the
    settings in force at the step, and the run functions thread them ([next_cfg]); example: *)
 Example C15_lowered_max_mischance_applies_at_next_miss :
-  let miss := [ONewBlock 5; OVotes [(0, true); (1, false); (2, true)]; OEndBlock] in
+  let miss := [ONewBlock (5 * NS); OVotes [(0, true); (1, false); (2, true)]; OEndBlock] in
   let s3 := run cfg_loose s_three (miss ++ miss ++ miss) in
   status_at s3 1 = Some SActive /\
   status_at (run cfg_loose s3 (OSetProp 1 1 true :: miss)) 1 = Some SInactive /\
